@@ -5,5 +5,5 @@ CONSTANTS
   Stride = 7
   Pairs = 40
   Randoms = 60
-  NBombs = 16
+  NBombs = 17
   RefStride = 1
